@@ -217,6 +217,10 @@ def run(ctx):
               '(assert (= (bvadd x y) z))\n(assert (bvult (bvadd z x) y))\n(check-sat)\n')
     rjobs = [dict(text=bvtext, opts=['--strategy', st, '-j', '1', '--disable-all', '--constants', '--replace-by-variable'],
                   cmd=[e2e.TOKPRED, 'all', 'bvadd'], env={}, timeout=240) for st in (('ddmin', 'hybrid') if ctx.thorough else ('ddmin',))]
+    # ... and after an accepted step that keeps the number of expressions (a constant inside a definition): the table of defined
+    # functions must follow
+    rjobs.append(dict(text='(set-logic ALL)\n(define-fun f () Int 7)\n(define-fun g () Int (+ f 12))\n(declare-const a Int)\n(assert (= a f))\n(assert (< g (* a 9)))\n(check-sat)\n',
+                      opts=['--strategy', 'ddmin', '-j', '1', '--disable-all', '--arith-constants', '--inline-functions'], cmd=[e2e.TOKPRED, 'all', 'assert'], env={}, timeout=240))
     for j, r in zip(rjobs, e2e.run_many(rjobs)):
         ctx.case(['tables', j['text'], j['opts']], len(r.ev('taskgen')) > 3)
         ctx.count('task generators of real runs checked for stale tables', len(r.ev('taskgen')))
@@ -320,7 +324,11 @@ def run(ctx):
              '(assert (fp.isNaN (fp.sqrt r (g x))))\n(assert (fp.isNaN (fp.fma r (g x) (g 1) (g 2))))\n(check-sat)\n',
              {'(fp.add r (g x) (_ +zero 8 24))': ('_', 'FloatingPoint', '8', '24'), '(fp.mul r (g x) (g 1))': ('_', 'FloatingPoint', '8', '24'),
               '(fp.sqrt r (g x))': ('_', 'FloatingPoint', '8', '24'), '(fp.fma r (g x) (g 1) (g 2))': ('_', 'FloatingPoint', '8', '24'),
-              'r': 'RoundingMode', '(g x)': ('_', 'FloatingPoint', '8', '24')})]
+              'r': 'RoundingMode', '(g x)': ('_', 'FloatingPoint', '8', '24')}),
+            # a parametric datatype: the sort of a constructor application is the instantiated sort, not the bare name
+            ('(set-logic ALL)\n(declare-datatypes ((Lst 1)) ((par (T) ((nil) (cons (hd T) (tl (Lst T)))))))\n(declare-const l (Lst Int))\n'
+             '(declare-const k (Lst Int))\n(assert (= k (cons 1 l)))\n(assert (= 1 (hd (cons 2 l))))\n(check-sat)\n',
+             {'(cons 1 l)': ('Lst', 'Int'), '(cons 2 l)': ('Lst', 'Int'), 'l': ('Lst', 'Int'), 'k': ('Lst', 'Int'), '(hd (cons 2 l))': 'Int'})]
     for text_, typed in HAND:
         ex_ = impl.parse(text_)
         smtlib.collect_information(ex_)
